@@ -382,13 +382,21 @@ func sortHostsReverseHostPort(hosts []string) []string {
 	if len(hosts) < 2 {
 		return hosts
 	}
-	for i, h := range hosts {
-		hosts[i] = ReverseHostPort(h)
+
+	// Sort by the reversed names but keep the hosts as they are since
+	// reversing a name twice does not always return the original, e.g.
+	// ":1234" becomes "[:1234]:1234" and "foo.com:" becomes "foo.com".
+	rev := make(map[string]string, len(hosts))
+	for _, h := range hosts {
+		rev[h] = ReverseHostPort(h)
 	}
-	sort.Sort(sort.Reverse(sort.StringSlice(hosts)))
-	for i, h := range hosts {
-		hosts[i] = ReverseHostPort(h)
-	}
+	sort.Slice(hosts, func(i, j int) bool {
+		ri, rj := rev[hosts[i]], rev[hosts[j]]
+		if ri != rj {
+			return ri > rj
+		}
+		return hosts[i] > hosts[j]
+	})
 
 	// A host name without glob characters matches only itself and is
 	// therefore more specific than any pattern, e.g. foo.com must come
